@@ -30,7 +30,8 @@ def packet_obs():
         grid=[dict(PKTSEL=k) for k in range(1, 27)], quick_grid=[dict(PKTSEL=k) for k in (1, 2, 3, 4, 5, 25, 26)], timeout=600, mem_gb=4, **PK)
     o["x27"] = Ob("parse_27", func="h_27", unwind=50, vin_size=128, reach=["end", "clean"],
         desc="parse_27 on an arbitrary row and page state: no access outside link[36]; single bit error in a clean protected byte/triplet (bytes 0..37) => same result and state",
-        encodes=["parse_27", "unham_page_link", "vbi_unham24p"], bounds="none within one packet", timeout=900, mem_gb=8, **PK)
+        encodes=["parse_27", "unham_page_link", "vbi_unham24p"], bounds="none within one packet; designation code enumerated by the runner (0..15 thorough; 0, 3, 4, 5, 6 quick)",
+        grid=[dict(DESSEL=k) for k in range(16)], quick_grid=[dict(DESSEL=k) for k in (0, 3, 4, 5, 6)], timeout=900, mem_gb=6, **PK)
     o["x27_links"] = Ob("parse_27_links", func="h_27_links", unwind=50, vin_size=128,
         desc="X/27/0..3 produced by the reference link encoder for six arbitrary links: parse_27 stores exactly those page/subpage numbers at link[designation*6+i]; have_flof = link control bit",
         encodes=["parse_27", "unham_page_link"], bounds="none", timeout=600, mem_gb=6, **PK)
@@ -50,11 +51,13 @@ def packet_obs():
         encodes=["lop_parity_check", "vbi_par8", "vbi_unpar8"], bounds="3 enhancement triplets, one received row (enumerated: 1..25 thorough; 5, 24 quick)",
         grid=[dict(ROWSEL=r) for r in range(1, 26)], quick_grid=[dict(ROWSEL=5), dict(ROWSEL=24)], timeout=600, mem_gb=4, **PK)
     MG = [dict(MAGN=m) for m in range(8)]
+    G28 = [dict(MAGN=m, DESSEL=d, PK2829=k) for m in (0, 3) for d in (0, 1, 2, 3, 4, 5) for k in (28, 29)]
     o["x2829"] = Ob("parse_28_29", func="h_2829", unwind=50, vin_size=1024, reach=["end", "clean"],
         desc="parse_28_29 on an arbitrary row for X/28 and M/29, arbitrary page function, arbitrary page/magazine extension: no access outside (bit stream reader, colour map, "
              "DRCS CLUT, mode[48]); a single bit error in a clean byte/triplet => same result, same page state, same page and magazine extension",
-        encodes=["parse_28_29", "get_bits", "vbi_unham24p"], bounds="none within one packet; magazine enumerated by the runner",
-        grid=MG, quick_grid=[dict(MAGN=0), dict(MAGN=3)], timeout=900, mem_gb=6, **PK)
+        encodes=["parse_28_29", "get_bits", "vbi_unham24p"], bounds="none within one packet; magazine (1 of 2), designation code 0..5 and packet 28/29 enumerated by the runner",
+        grid=G28, quick_grid=[dict(MAGN=3, DESSEL=0, PK2829=28), dict(MAGN=3, DESSEL=1, PK2829=29), dict(MAGN=0, DESSEL=3, PK2829=28), dict(MAGN=0, DESSEL=4, PK2829=29)],
+        timeout=900, mem_gb=8, **PK)
     o["btt"] = Ob("parse_btt", func="h_btt", unwind=50, vin_size=128,
         desc="parse_btt on an arbitrary row, every packet number: all accesses inside the network object (page statistics 0x100..0x8FF, BTT link table), links in range",
         encodes=["parse_btt", "unham_top_page_link", "cache_network_page_stat"], bounds="none within one packet; packet number enumerated",
@@ -84,14 +87,17 @@ def packet_obs():
         encodes=["vbi_decode_teletext", "parse_mot", "parse_pop", "parse_btt", "parse_ait", "parse_mpt", "parse_mpt_ex", "parse_27", "parse_28_29", "parse_8_30"],
         bounds="one packet; magazine 1 and 8, every packet number (thorough) / one per class (quick); page data concrete zero (leaf parsers have their own obligations)",
         grid=RG, quick_grid=[dict(MAGN=1, PKTN=p) for p in (1, 25, 26, 27, 28, 29, 30, 31)], timeout=900, mem_gb=6, **PK)
-    HG = [dict(MAGN=m, PAGEN=pg) for m in (1, 0, 4) for pg in ("0x23", "0x99", "0xAB", "0xFF", "0xFD", "0xFE", "0xF0", "0xE7")]
+    HG = [dict(MAGN=m, PAGEN=pg) for m in (1, 0, 4) for pg in ("0x23", "0x99", "0xAB", "0xFD", "0xFE", "0xF0", "0xE7")]
     o["header"] = Ob("ttx_header", func="h_ttx_header", unwind=50, vin_size=128, reach=["end", "sub_err", "clean"],
         desc="vbi_decode_teletext on a page header X/0 (no page in progress, cache miss) with the address and page number bytes concrete (runner grid) and the sub-code, "
              "control bytes and the remaining 32 bytes arbitrary: an uncorrectable sub-code or control byte marks the page DISCARD (never assembled, hence never stored "
              "under a sub-code that was not transmitted); otherwise the opened page carries exactly the transmitted page number, sub-code S1..S4, national option bits and "
              "control bits (reference: EN 300 706 9.3.1 from the nibbles of an independent Hamming decoder)",
         encodes=["vbi_decode_teletext (case 0)", "vbi_unham16p", "vbi_convert_page"], bounds="one header; magazine and page number enumerated by the runner; vt.current == NULL",
-        grid=HG, quick_grid=[dict(MAGN=1, PAGEN="0x23"), dict(MAGN=0, PAGEN="0x99"), dict(MAGN=1, PAGEN="0xFF")], timeout=1200, mem_gb=6, **PK)
+        grid=HG, quick_grid=[dict(MAGN=1, PAGEN="0x23"), dict(MAGN=0, PAGEN="0x99")], timeout=1200, mem_gb=6, **PK)
+    o["header_timefill"] = Ob("ttx_header_time_filling", func="h_ttx_header", unwind=50, vin_size=128, reach=["end", "sub_err"],
+        desc="time filling header (page number FF): never assembled, nothing stored", encodes=["vbi_decode_teletext (case 0)"], bounds="page FF of magazines 1 and 8",
+        grid=[dict(MAGN=1, PAGEN="0xFF"), dict(MAGN=0, PAGEN="0xFF")], quick_grid=[dict(MAGN=1, PAGEN="0xFF")], timeout=600, mem_gb=4, **PK)
     o["header_badpage"] = Ob("ttx_header_pageno_error", func="h_ttx_header", unwind=50, vin_size=128, reach=["end", "pageno_err"],
         desc="page header whose page number byte is uncorrectable (two bit errors): nothing is stored, no event, the pages in progress are abandoned",
         encodes=["vbi_decode_teletext (case 0)", "vbi_teletext_desync"], bounds="error in the units or the tens byte (grid); rest of the header arbitrary",
